@@ -79,7 +79,7 @@ def premises(chk, rng):
     chk.tv("Trace_MHStep.tla", mh_driver.traces_for_keys(seeds, cmb, "vmap_jit"), tag="premise_P1_acceptance",
            keyfn=lambda r: f"premise:P1:mh_step:{r.conjunct}")
     # P2: corrections of IWLS / RW / MH proposals (families with state-dependent information first)
-    js = [j for j in P.jobs(chk.quick) if j["family"] in ("poisson", "coupled", "poisson_userchol", "gamma_mh", "gamma_coupled")]
+    js = [j for j in P.jobs(chk.quick) if j["family"] in ("poisson", "coupled", "poisson_userchol", "gamma_mh", "gamma_coupled", "student_t")]
     tr = [t for res in parallel.run_jobs("harness.proposals_driver", "run", js) for t in res]
     chk.tv("Trace_Proposals.tla", tr, tag="premise_P2_corrections", timeout=900,
            keyfn=lambda r: f"premise:P2:{r.trace['hdr']['kernel']}:{r.conjunct}",
